@@ -84,9 +84,10 @@ class C19(core.Check):
     id = "C19"
     title = "Online mode contains the program: no host output, no evaluation of user text"
     tiers = {
-        "quick": dict(runs=5_000, batch=100, wall=85),
+        "quick": dict(runs=4_000, batch=100, wall=85),
         "thorough": dict(runs=150_000, batch=300, wall=840),
     }
+    per_run_timeout = 60
     components_real = ["vyxal/main.py execute_vyxal (online and offline)", "vyxal/helpers.py vy_eval, get_input", "vyxal/"
                        "elements.py vy_print, function_call, vy_exec, exp2_or_eval, request, all elements of the grammar",
                        "vyxal/LazyList.py output", "vyxal/transpile.py, lexer, parser",
@@ -282,6 +283,27 @@ class C19(core.Check):
             uses_eval = True
         else:
             extra_input = None
+        if taint and rw.random() < 0.25:
+            # user text in the other syntactic positions the lexer knows: comments (ended only by \n for Vyxal, but Python
+            # also breaks lines at \r, \x0b, \x0c, \x1c-\x1e, \x85, \u2028, \u2029), compressed numbers / strings with
+            # characters outside the code page, two-character strings, character literals
+            c_ = CANARY_EXPR.format(tag="syn")
+            sep = rw.choice(["\r", "\x0b", "\x0c", "\x1c", "\x1d", "\x1e", "\x85", "\u2028", "\u2029"])
+            kind_ = rw.choice(["comment", "comment", "cnum", "cnum", "cstr", "twochar", "char"])
+            if kind_ == "comment":
+                node = ["t", f"# note{sep}{c_}\n"]
+            elif kind_ == "cnum":
+                node = ["t", "»" + rw.choice([f"{c_}\t", f"[{c_},7][1]é", f"{c_}", f"1+{c_}\u00e9"]) + "»"]
+            elif kind_ == "cstr":
+                node = ["t", "«" + rw.choice([f"{c_}\t", f"'+str({c_})+'é", f"{c_}"]) + "«"]
+            elif kind_ == "twochar":
+                node = ["t", rw.choice(['‛");', "‛\\\"", "‛'\""]) + f" `{c_}`"]
+            else:
+                node = ["t", rw.choice(['\\"', "\\'", "\\\\"]) + f" `;{c_}#` +"]
+            if rw.random() < 0.3:
+                node = ["t", "`" + node[1].replace("`", "") + "` Ė"]
+            nodes.insert(rw.randint(0, len(nodes)), node)
+            uses_eval = True
         n_in = rw.choice([0, 0, 1, 2, 3])
         inputs = []
         weird = False
@@ -332,6 +354,9 @@ class C19(core.Check):
         if layer == "flask":
             case["speed"] = rf.choice([200, 1000, 5000, 100000])  # child steps per simulated second
             case["user_kill_frac"] = rf.choice([None, None, round(rf.random(), 3)])
+            # multi-request histories of one browser tab / other tabs loading the page while this one runs
+            case["scenario"] = rf.choice(["single", "single", "late_kill_then_slow", "page_loads", "two_runs"])
+            case["page_loads"] = rf.choice([3, 50, 3000])
         return case
 
     # ---------------------------------------------------------------------------- one execution
